@@ -54,6 +54,10 @@ def plan(tier, seed):
             specs.append({"kind": "stretch_inv", "cls": cls, "default": r == 0})
     for r in range(10 if tier == "quick" else 500):
         specs.append({"kind": "combined"})
+    # the normalisation as the plotting entry points construct it (in situ, through wrappers on the rgba converters)
+    for r in range(60 if tier == "quick" else 1500):
+        specs.append({"kind": "viz", "entry": "array" if r % 2 == 0 else "combined", "dtype": DTYPES[1:][r % (len(DTYPES) - 1)], "stretch": STRETCHES[(r // 2) % 4],
+                      "limits": ["both", "none", "preset", "quantiles"][(r // 3) % 4]})
     return specs
 
 
@@ -340,11 +344,106 @@ def _run_combined(spec, idx, ctx):
     ctx.observe(kw=kw)
 
 
+def _run_viz(spec, idx, ctx):
+    """In situ: what the plotting entry points hand to the colour conversion must be the requested normalisation of the data."""
+    from matplotlib.figure import Figure
+
+    from vf import hook
+
+    viz = ctx.state.get("viz")
+    if viz is None:
+        from quantem.core.visualization import visualization as viz
+
+        ctx.state["viz"] = viz
+        cap = ctx.state["viz_cap"] = {}
+
+        def pre_array(a, k):
+            cap["scaled"] = a[0]
+            return None
+
+        def pre_list(a, k):
+            cap["norm"] = k.get("norm")
+            cap["arrays"] = a[0]
+            return None
+
+        # the names as bound inside visualization.py (from ... import ...)
+        hook.wrap(viz, "array_to_rgba", pre=pre_array, ctx=ctx, also_patch_importers=False)
+        hook.wrap(viz, "list_of_arrays_to_rgba", pre=pre_list, ctx=ctx, also_patch_importers=False)
+    cap = ctx.state["viz_cap"]
+    cap.clear()
+    rng = ctx.rng(idx)
+    fam = FAMILIES[int(rng.integers(len(FAMILIES)))]
+    shape = (int(rng.integers(3, 9)), int(rng.integers(3, 9)))
+    data = _gen_values(rng, spec["dtype"], fam).ravel()
+    data = np.resize(data, shape)
+    fin = data[np.isfinite(data)].astype(np.float64) if data.dtype.kind == "f" else data.astype(np.float64).ravel()
+    lo, hi = float(fin.min()), float(fin.max())
+    span = max(hi - lo, 1e-6)
+    kwargs, norm_arg, want = {}, None, None
+    st = spec["stretch"]
+    lim = spec["limits"]
+    if lim == "both":
+        vmin = lo + span * float(rng.uniform(0.05, 0.4))
+        vmax = vmin + span * float(rng.uniform(0.05, 0.5))
+        if rng.random() < 0.5:
+            kwargs = {"vmin": vmin, "vmax": vmax}
+            if st != "linear":
+                kwargs["stretch_type"] = st
+        else:
+            norm_arg = {"interval_type": "manual", "stretch_type": st, "vmin": vmin, "vmax": vmax}
+        want = (vmin, vmax)
+    elif lim == "preset":
+        norm_arg = PRESETS[int(rng.integers(len(PRESETS)))]
+    elif lim == "quantiles":
+        kwargs = {"lower_quantile": float(rng.choice([0.0, 0.05, 0.2])), "upper_quantile": float(rng.choice([1.0, 0.95, 0.8]))}
+    fig = Figure(figsize=(2, 2))
+    ax = fig.subplots()
+    common = {"entry": spec["entry"], "dtype": str(data.dtype), "limits": lim, "stretch": st, "interval": "viz", "mode": "viz"}
+    vspec = {"dtype": spec["dtype"], "interval": "viz:" + lim, "stretch": st, "mode": "viz:" + spec["entry"]}
+    if spec["entry"] == "array":
+        viz._show_2d_array(data, norm=norm_arg, figax=(fig, ax), **kwargs)
+        out = cap.get("scaled")
+        ctx.check(out is not None, "viz_hook_not_reached", "array_to_rgba was not called by _show_2d_array", **common)
+        if out is None:
+            return
+        _judge(ctx, vspec, data, None, out, "in situ: _show_2d_array -> array_to_rgba")
+        arrays, norm = [data], None
+        outs = [np.ma.getdata(out).astype(np.float64)]
+    else:
+        other = np.resize(_gen_values(rng, spec["dtype"], fam).ravel(), shape)
+        viz._show_2d_combined([data, other], norm=norm_arg, figax=(fig, ax), **kwargs)
+        norm = cap.get("norm")
+        ctx.check(norm is not None, "viz_hook_not_reached", "list_of_arrays_to_rgba was not called with a norm by _show_2d_combined", **common)
+        if norm is None:
+            return
+        arrays = [data, other]
+        outs = []
+        for a in arrays:
+            o = norm(a)
+            _judge(ctx, vspec, a, norm, o, "in situ: norm handed to list_of_arrays_to_rgba by _show_2d_combined")
+            outs.append(np.ma.getdata(o).astype(np.float64))
+    if want is not None:
+        # the requested limits must be honoured: data <= vmin -> 0, data >= vmax -> 1, strictly inside -> strictly inside
+        tol = _tol(data.dtype) if data.dtype != np.float32 else 2e-4
+        for a, o in zip(arrays, outs):
+            af = a.astype(np.float64)
+            ok = np.isfinite(af)
+            below, above, inside = ok & (af <= want[0]), ok & (af >= want[1]), ok & (af > want[0] + 1e-3 * span) & (af < want[1] - 1e-3 * span)
+            ctx.close(float(np.abs(o[below]).max()) if below.any() else 0.0, tol, "requested_vmin_not_honoured", lambda: "data <= vmin=%r maps to %r" % (want[0], o[below][:3].tolist()), **common)
+            ctx.close(float(np.abs(o[above] - 1).max()) if above.any() else 0.0, tol, "requested_vmax_not_honoured", lambda: "data >= vmax=%r maps to %r" % (want[1], o[above][:3].tolist()), **common)
+            ctx.check(bool(np.all((o[inside] > 0) & (o[inside] < 1))), "requested_limits_not_honoured", lambda: "data strictly inside (vmin,vmax)=(%r,%r) maps to %r" % (want[0], want[1], o[inside][:4].tolist()), **common)
+    nd = len(np.unique(fin))
+    ctx.nontrivial(("viz", spec["entry"], spec["dtype"], lim, st), nd >= 3)
+    ctx.observe(entry=spec["entry"], limits=lim, want=want, norm=norm_arg, kwargs=kwargs)
+
+
 def run_case(spec, idx, ctx):
     with np.errstate(all="ignore"):
         if spec["kind"] == "norm":
             _run_norm(spec, idx, ctx)
         elif spec["kind"] == "stretch_inv":
             _run_stretch(spec, idx, ctx)
+        elif spec["kind"] == "viz":
+            _run_viz(spec, idx, ctx)
         else:
             _run_combined(spec, idx, ctx)
